@@ -103,7 +103,25 @@ func bigSeeds() [][]seqx.Op {
 		}
 		return o
 	}
-	for _, n := range []int{31, 32, 33, 63, 64, 65, 127, 128, 129, 255, 256} {
+	// rotations: the ring's front at several positions of a full or nearly full buffer, also of a
+	// buffer whose capacity is not a power of two (grown by an odd amount first)
+	rot := func(r int) []seqx.Op {
+		var o []seqx.Op
+		for i := 0; i < r; i++ {
+			o = append(o, seqx.Op{K: dq.OpPopFront}, seqx.Op{K: dq.OpPushBack})
+		}
+		return o
+	}
+	for _, n := range []int{32, 33, 48, 64} {
+		for _, r := range []int{1, n / 2, n - 1, n} {
+			seeds = append(seeds,
+				cat(rep(dq.OpPushBack, n), rot(r)),
+				cat(rep(dq.OpPushBack, 3), []seqx.Op{{K: dq.OpGrow, A: 4}}, rep(dq.OpPushBack, n), rot(r)),
+				cat(rep(dq.OpPushBack, 5), []seqx.Op{{K: dq.OpGrow, A: 3}}, rep(dq.OpPushFront, n), rot(r)),
+			)
+		}
+	}
+	for _, n := range []int{31, 32, 33, 63, 64, 65, 127, 128, 129, 255, 256, 511, 512, 513, 1024, 1025} {
 		seeds = append(seeds,
 			rep(dq.OpPushBack, n),
 			rep(dq.OpPushFront, n),
@@ -142,7 +160,7 @@ func main() {
 	}
 	maxCap := 36
 	if !run.Quick() {
-		maxCap = 72
+		maxCap = 136
 	}
 	s := sys{maxCap: maxCap}
 	st := seqx.Explore(s, seqx.Config{
@@ -187,7 +205,7 @@ func main() {
 		}
 		run.Violate(vx.Violation{Signature: v.Viol.Sig, Detail: fmt.Sprintf("%s; history %v", v.Viol.Detail, rd), Replay: map[string]any{"ops": v.Path}})
 	}
-	run.Set("large_seed_states", map[string]any{"seeds": len(bigSeeds()), "fill_sizes": []int{31, 32, 33, 63, 64, 65, 127, 128, 129, 255, 256}, "depth": 2, "sequences": stB.Transitions})
+	run.Set("large_seed_states", map[string]any{"seeds": len(bigSeeds()), "fill_sizes": []int{31, 32, 33, 63, 64, 65, 127, 128, 129, 255, 256, 511, 512, 513, 1024, 1025}, "rotated_fills": "32/33/48/64 items rotated by 1, n/2, n-1, n positions, also in buffers of odd capacity", "depth": 2, "sequences": stB.Transitions})
 	run.Set("capacity_bound", maxCap)
 	run.Set("bfs_depth", st.MaxDepth)
 	run.Set("states_per_depth", st.PerDepth)
